@@ -21,7 +21,8 @@ TECHNIQUE = (
 )
 RULE = (
     "case = C02-style dataset (1-3 files, folds 2-6, key arity, workers, chunk sizes) with estimator Lin, Cubic "
-    "(monotone non-linear), LinBoth (decision_function plus predict_proba) or LinTied (output quantised to half units: "
+    "(monotone non-linear), LinBoth (decision_function plus predict_proba), LinOffset (raw output on an intercept of 2e6), LinTiny "
+    "(raw output of the order 1e-10) or LinTied (output quantised to half units: "
     "tie groups of targets and decoys straddle the acceptance boundary), test_fdr in {0.0731, 0.1279, 0.2113, 0.31, 0.25, 0.5} "
     "(the dyadic values are exactly representable, so a q-value can equal the threshold), strong- or weak-signal data. Non-trivial: "
     ">=3 folds or >=2 files, all folds calibrated, and at least one fold whose accepted set is a strict subset of its "
@@ -31,7 +32,7 @@ ASSUMPTIONS = [
     "domain per the statement: folds whose lowest accepted target lies above the decoy median; other folds are only "
     "checked for the affine relation",
     "cases in which an exact q-value lies within 3e-7 (float32 rounding) of test_fdr are discarded as ambiguous",
-    "tolerance 1e-9 (absolute, scores are O(1)) on anchors and affine residual",
+    "tolerance 1e-9 (absolute, scores are O(1)) plus 16 ulp of the largest raw output divided by the anchor distance on the anchors; 1e-8 relative on the affine residual (raw output standardised)",
 ]
 FDRS = (0.0731, 0.1279, 0.2113, 0.31, 0.25, 0.5)
 
@@ -45,7 +46,7 @@ def budget(tier):
 @st.composite
 def _case(draw, tier):
     weak = draw(st.sampled_from([False, False, False, False, False, True]))
-    c = draw(brewlib.cv_case(tier, estimators=("Lin", "Cubic", "LinBoth", "LinTied"), fdrs=FDRS, weak=weak))
+    c = draw(brewlib.cv_case(tier, estimators=("Lin", "Cubic", "LinBoth", "LinTied", "LinOffset", "LinTiny"), fdrs=FDRS, weak=weak))
     c["cap_kind"] = draw(st.sampled_from(["none", "none", "active"]))
     if weak:
         c["test_fdr"] = draw(st.sampled_from([0.0731, 0.1279]))
@@ -58,9 +59,54 @@ def strategy(tier):
     return _case(tier)
 
 
+def _check_same_model(case, dfs, blocks, same, thr):
+    """blocks = {(file, fold token of the first run): [(pos, raw, is_target)]} gives the fold membership; in the second run
+    every row was scored by the first fold's model: per fold block the returned scores must again be anchored on that
+    block's own rows."""
+    scores2, events2 = same
+    raw2 = {}
+    for ev in events2:
+        if ev[1] == "predict":
+            for rr, v in zip(ev[2].tolist(), ev[3].tolist()):
+                raw2[rr] = v
+    for (fi, tok), rows in blocks.items():
+        pos = np.array([p for p, _, _ in rows])
+        tg = np.array([t for _, _, t in rows], dtype=bool)
+        rid = [fi * 1_000_000 + int(p) for p in pos]
+        if any(r_ not in raw2 for r_ in rid) or not (~tg).any():
+            continue
+        x = np.array([raw2[r_] for r_ in rid], dtype=float)
+        y = np.asarray(scores2[fi], dtype=float).ravel()[pos]
+        q = tdc_ref(x.tolist(), tg.tolist(), True)
+        _, amb = labels_ref(q, tg.tolist(), thr)
+        acc = [i for i in range(len(rows)) if tg[i] and q[i] <= Fraction(thr)]
+        if amb or not acc:
+            continue
+        t0 = min(x[i] for i in acc)
+        dmed = float(np.median(x[~tg]))
+        if not t0 > dmed:
+            continue
+        tol = 1e-9 + 16 * np.finfo(float).eps * float(np.max(np.abs(x))) / abs(t0 - dmed)
+        y_t0 = min(y[i] for i in acc)
+        y_dm = float(np.median(y[~tg]))
+        where = f"one pretrained model for all folds, file {fi}, fold block of first-run model {tok}"
+        require(abs(y_t0) <= tol, "anchor-zero", f"{where}: lowest accepted target of the fold maps to {y_t0!r}, not 0")
+        require(abs(y_dm + 1.0) <= tol, "anchor-minus-one", f"{where}: the fold's decoy median maps to {y_dm!r}, not -1")
+        ox = np.argsort(x, kind="stable")
+        require(bool(np.all(np.diff(y[ox]) >= 0)), "rank-changed", where)
+
+
 def check(case):
+    same = None
     with scratch_dir() as tmp:
         r = brewlib.run_brew(case, tmp, train_fdr=0.31, capture=True)
+        if r["error"] is None and r["models"] is not None and all(m.is_trained for m in r["models"]) and case["rng"] % 3 == 0:
+            # history: the data are scored again with ONE already trained model used for every fold (pretrained models may
+            # carry equal fold numbers); every fold is still calibrated on its own rows
+            try:
+                same = brewlib.rescore(case, tmp, r["models"], [0] * case["folds"], capture_events=True)
+            except Rejected:
+                same = None
     dfs, events = r["dfs"], r["events"]
     logs = recorder.split_log(events)
     thr = case["test_fdr"]
@@ -134,11 +180,15 @@ def check(case):
             # outside the statement's domain (possible only with tied raw outputs)
             classes.append("fold-out-of-domain-zero-span")
             continue
-        A = np.column_stack([x, np.ones_like(x)])
+        sx = float(np.std(x))
+        if sx == 0:
+            continue
+        xs = (x - float(np.mean(x))) / sx  # standardised: the raw output may sit on any offset / scale
+        A = np.column_stack([xs, np.ones_like(xs)])
         coef, *_ = np.linalg.lstsq(A, y, rcond=None)
         resid = float(np.max(np.abs(A @ coef - y)))
         scale = max(1.0, float(np.max(np.abs(y))))
-        require(resid <= 1e-9 * scale * max(1.0, abs(coef[0])), "not-affine",
+        require(resid <= 1e-8 * scale * max(1.0, abs(coef[0])), "not-affine",
                 f"file {fi} fold-model {tok}: scores are not an affine function of the raw output (resid {resid:.3g})")
         if not t0 > dmed:
             classes.append("fold-out-of-domain")
@@ -152,9 +202,11 @@ def check(case):
         require(bool(np.all((np.diff(y[ox]) == 0)[ties_x])), "ties-broken", f"file {fi} fold-model {tok}")
         y_t0 = min(y[i] for i in acc)
         y_dm = float(np.median(y[~tg]))
-        require(abs(y_t0) <= 1e-9, "anchor-zero",
+        # rounding of the raw output itself, carried through the division by (t0 - dm)
+        tol = 1e-9 + 16 * np.finfo(float).eps * float(np.max(np.abs(x))) / abs(t0 - dmed)
+        require(abs(y_t0) <= tol, "anchor-zero",
                 f"file {fi} fold-model {tok}: lowest accepted target maps to {y_t0!r}, not 0 (accepted {len(acc)})")
-        require(abs(y_dm + 1.0) <= 1e-9, "anchor-minus-one",
+        require(abs(y_dm + 1.0) <= tol, "anchor-minus-one",
                 f"file {fi} fold-model {tok}: decoy median maps to {y_dm!r}, not -1")
         if len(acc) < int(tg.sum()):
             strict_subset = True
@@ -163,6 +215,9 @@ def check(case):
             classes.append("accepted-target-exactly-at-threshold")
         if any((x == t0) & ~tg):
             classes.append("decoy-tied-with-lowest-accepted-target")
+    if same is not None:
+        _check_same_model(case, dfs, blocks, same, thr)
+        classes.append("one-pretrained-model-for-all-folds")
     if len(dfs) > 1:
         classes.append("multi-file")
     nontrivial = (case["folds"] >= 3 or len(dfs) >= 2) and strict_subset and in_domain_blocks == len(blocks)
